@@ -408,7 +408,7 @@ func junkString(rng *rand.Rand, seeds []string) string {
 
 func TestVerif_C04(t *testing.T) {
 	r := newRun(t, "C04")
-	r.Rule("soundness of acceptance: (a) configurations from labelled atoms with >= 1 documented violation (single-atom sweeps under all switch combinations, stratified multi-violation mixes, all three entry points) must be rejected, a non-nil error must come with a nil *Middleware; " +
+	r.Rule("soundness of acceptance: (a) configurations from labelled atoms with >= 1 documented violation (single-atom sweeps under all switch combinations, stratified multi-violation mixes, all entry points) must be rejected, a non-nil error must come with a nil *Middleware; " +
 		"(b) arbitrary junk (fragment assembly, random bytes, byte-level mutations of valid and invalid atoms, boundary integers) - whatever is accepted must satisfy a recogniser of necessary conditions of the documented grammar. " +
 		"non-trivial = configuration carrying at least one violation (a) or failing the recogniser (b); distinct by hash of the Config literal + entry point")
 	r.Assume("atom labels are correct by construction; the junk recogniser only demands necessary conditions and tolerates the undocumented grey zones (`_`, https+IP, hyphen positions, localhost-like hosts)")
@@ -494,7 +494,7 @@ func TestVerif_C04(t *testing.T) {
 			}
 		}
 	})
-	r.Exhaustive("every conditional/invalid atom of every table in 4-6 list shapes x Credentialed x 4 PNA settings x 2 tolerate flags x 3 entry points")
+	r.Exhaustive("every conditional/invalid atom of every table in 4-6 list shapes x Credentialed x 4 PNA settings x 2 tolerate flags x 5 entry points")
 
 	// ---- (a2) integers: exhaustive windows around every bound
 	r.Parallel(1, func(l *Local) {
